@@ -104,3 +104,40 @@ Proof.
   rewrite Etrim, Ht1. exists src. cbn [map aname apos alen asrc aprops]. f_equal. f_equal. f_equal.
   unfold clampz, attr_of. cbn [aname apos alen asrc aprops mname mpos msrc mprops]. rewrite !app_length. f_equal; lia.
 Qed.
+
+(* a property trimwhitespace=false switches the rule off: nothing is swallowed wherever the marker stands *)
+Theorem self_closing_trimwhitespace_false n ps a b :
+  name_ok n -> Forall prop_ok ps -> get_prop (pvalues ps) (STR "trimwhitespace") = Some (MBool false) ->
+  str_eqb n (STR "character") = false ->
+  forallb plain_rune a = true -> forallb plain_rune b = true ->
+  forallb CP.no_colon a = true -> forallb CP.no_colon b = true ->
+  no_edge_space (a ++ b) ->
+  exists src, parse_markup (a ++ 91%N :: w_self n ps ++ b) =
+    Some (a ++ b, [{| aname := n; apos := Z.of_nat (length a); alen := 0; asrc := src;
+                      aprops := props_map (pvalues ps) |}]).
+Proof.
+  intros Hn Hps Htw Hnc Ha Hb Hca Hcb (Ht1 & Ht2).
+  pose proof (self_form_written n ps Hn Hps) as Hw.
+  unfold parse_markup.
+  set (R := 91%N :: w_self n ps ++ b).
+  destruct (main_loop_plain_app_last a R (S (length (a ++ R))) 0 [] 0 [] 0%N Ha) as (p1 & E1); [lia|].
+  rewrite E1. clear E1. rewrite app_nil_r.
+  replace (S (length (a ++ R)) - length a)%nat with (S (S (length (w_self n ps ++ b)))).
+  2:{ unfold R. rewrite !app_length. cbn [length]. rewrite !app_length. lia. }
+  set (f' := S (length (w_self n ps ++ b))). unfold R. cbn [main_loop rest sp]. change (91 =? 92)%N with false. cbn [andb].
+  change (91 =? 91)%N with true. cbv iota.
+  destruct (Hw b p1 (0 + Z.of_nat (length a))) as (src & p2 & Em).
+  rewrite Em. destruct Hn as (Hne & Hid & Hproc). cbv beta iota. cbn [mname]. rewrite Hproc. cbv beta iota zeta.
+  cbn [mprops mtype mname]. rewrite Htw.
+  assert (Etr : (if (0 + Z.of_nat (length a) =? 0) || is_space (lastr a 0%N) then Some false else Some false) = Some false)
+    by (destruct ((0 + Z.of_nat (length a) =? 0) || is_space (lastr a 0%N)); reflexivity).
+  rewrite Etr. cbn [andb rev app length]. rewrite Z.add_0_r.
+  subst f'. rewrite main_loop_plain; [|exact Hb|rewrite app_length; lia].
+  rewrite rev_involutive. cbn [app build_attrs mtype attr_of mname mpos msrc mprops sort_attrs fold_right insert_attr existsb aname].
+  rewrite Hnc. cbn [orb].
+  assert (Hcab : forallb CP.no_colon (a ++ b) = true) by (rewrite forallb_app, Hca, Hcb; reflexivity).
+  rewrite (find_colon_none _ 0%nat Hcab).
+  assert (Etrim : trim_space (a ++ b) = a ++ b) by (unfold trim_space; rewrite Ht1, Ht2; apply rev_involutive).
+  rewrite Etrim, Ht1. exists src. cbn [map aname apos alen asrc aprops]. f_equal. f_equal. f_equal.
+  unfold clampz, attr_of. cbn [aname apos alen asrc aprops mname mpos msrc mprops]. rewrite !app_length. f_equal; lia.
+Qed.
